@@ -283,6 +283,17 @@ def finish(ck: Ck, mod, wall_s: float, assumptions=None) -> int:
         json.dump(jsonable(ev), f, indent=1)
         f.write("\n")
 
+    try:
+        return _report(ck, n_nt, wall_s)
+    except BrokenPipeError:  # the reader closed the pipe (| head): the verdict is still the exit code
+        try:
+            sys.stdout = open(os.devnull, "w")
+        except OSError:
+            pass
+        return 1 if ck.violations else (2 if ck.inconclusive else 0)
+
+
+def _report(ck: Ck, n_nt: int, wall_s: float) -> int:
     for key, h in sorted(ck.known_hits.items()):
         print(f"KNOWN-FINDING: property={ck.pid} {key}: {h['text']} (seen {h['count']}x this run)")
     print(
